@@ -8,6 +8,8 @@ ok = bad = 0
 for m in ms:
     if pat not in m["name"] or m.get("skip"):
         continue
+    if os.environ.get("SELFTEST_NO_K") and "K" in m.get("engines", "V"):
+        continue
     d = f"/var/tmp/verif-selftest-{os.getpid()}"
     shutil.rmtree(d, ignore_errors=True)
     subprocess.run(["rsync", "-a", "--exclude", "target", "--exclude", ".git", "/repo/", d + "/"], check=True)
